@@ -1,11 +1,13 @@
 mod cmd_backend;
 mod cmd_focus;
 mod cmd_stages;
+mod cmd_fun2core;
 mod consts;
 mod pipe;
 mod cmd_genfun;
 mod gen_fun;
 mod gen_fun_ast;
+mod gen_fun_eval;
 mod rec;
 mod rng;
 mod sexp;
@@ -84,6 +86,7 @@ fn main() {
         "pm" => cmd_pm(num(2, 1), num(3, 100) as usize, &mut *out),
         "stages" => cmd_stages::cmd_stages(num(2, 1), num(3, 0) as usize, args.get(5..).unwrap_or(&[]), &mut *out),
         "focus" => cmd_focus::cmd_focus(num(2, 1), num(3, 0) as usize, args.get(5..).unwrap_or(&[]), &mut *out),
+        "fun2core" => cmd_fun2core::cmd_fun2core(num(2, 1), num(3, 0) as usize, args.get(5..).unwrap_or(&[]), &mut *out),
         c => { eprintln!("unknown command {c}"); std::process::exit(2); }
     }
     out.flush().unwrap();
